@@ -472,6 +472,9 @@ def check_provenance(ctx):
 
     pa = desugar_ifexp(inlined(repo, tail_inlined(repo, pa)))  # look-up helpers such as `bo, no = keys(nodes, path[1])` are seen through
     where = pa.where()
+    from . import sort_common as _sc
+
+    _sc.orientation_counts_rule(ctx, pa, "R08.2")
     # the branch on scaffold orientation majority
     branch = None
     from ..core import local_defs, resolve_expr
